@@ -514,6 +514,8 @@ def run_instance(payload):
             if cond is not None and is_sym(cond):
                 extra = [z3.Not(cond)] if 'differs from the parameter' in bad else [cond]
             res.violations.append({'what': '%s: %s' % (name, bad), 'input': rec(*extra)})
+        else:
+            res.xval_path('cmd', replay, rec)
         if len(res.samples) < 1:
             m = ctx.model()
             res.samples.append({'cmd': name, 'params': [f(m) for f in I._p.rust], 'request': render_wire(m, wire)})
